@@ -256,7 +256,15 @@ macro_rules! impl_behavior {
         Some(Behavior::<Val, i64>::peek(self))
       }
       fn next_by_name(&mut self, f: &str) {
-        Behavior::<Val, i64>::next_by(self, fn1(f))
+        if f == "mul2" {
+          // the closure READS the subject it is applied to (through a clone): v -> v + peek() — for the model and
+          // the oracle simply `mul2`.  Closures passed to next_by may look at the subject (docs: "emits a value
+          // computed from the current one"); the library must not hold the value cell while it calls them.
+          let reader = self.clone();
+          Behavior::<Val, i64>::next_by(self, move |v: Val| v + Behavior::<Val, i64>::peek(&reader))
+        } else {
+          Behavior::<Val, i64>::next_by(self, fn1(f))
+        }
       }
     }
   };
